@@ -101,7 +101,14 @@ func (f *Fetcher) FetchOnly(ctx context.Context, duty core.Duty, defSet core.Dut
 		}
 	}
 
-	f.attDataCache.Store(duty.Slot, unsignedSet)
+	// The fetched values are struct copies of the beacon node's response objects and share their nested
+	// pointers (AttestationData.Source / Target). Keep a private copy: the cached set outlives this call.
+	cached, err := unsignedSet.Clone()
+	if err != nil {
+		return errors.Wrap(err, "clone early-fetched attestation data")
+	}
+
+	f.attDataCache.Store(duty.Slot, cached)
 	log.Debug(ctx, "Early attestation data fetched and cached", z.U64("slot", duty.Slot), z.Str("bn_addr", bnAddr))
 
 	return nil
